@@ -265,7 +265,7 @@ def r3_cores(program, rep):
     c2, x2 = _core_range(TA, am)
     P = lambda n: ("param", n)      # noqa: E731
     m1 = match(("get", ("get", P("allocations"), V("sink"), ANY),
-                P("core_resource"), ("const", None)), x1)
+                P("core_resource")), x1)
     ok1 = m1 is not None and m1["sink"] == (
         "elem", ("attr", ("elem", P("nets")), "sinks"))
     rep.check(ok1, "C01-R3", qual(rt), "the router emits one core route "
